@@ -249,7 +249,7 @@ let run_scenario (oc : out_channel) (sc : scenario) (verbose : bool) =
     Printf.fprintf oc "%d %d %s\n" rs.steps a (String.concat " " (List.map ev_str evs));
     if verbose then begin
       Printf.fprintf oc "%s\n" (snapshot_str c rs.st);
-      Printf.fprintf oc "E %s\n" (String.concat " " (List.map string_of_int (enabled_set sc rs)))
+      Printf.fprintf oc "E %s\n" (String.concat " " (List.map string_of_int (List.filter (agent_enabled rs) (agent_ids sc))))
     end in
   let rec follow = function
     | [] -> ()
